@@ -39,6 +39,7 @@ type Spec struct {
 	ConcretizeDiv   []string `json:"concretize_div"`
 	StubError       []string `json:"stub_error"`
 	RealLogger      bool     `json:"real_logger"`
+	RealFuncs       []string `json:"real_funcs"`
 	Redirect        map[string]string `json:"redirect"`
 	Note            string   `json:"note"`
 }
@@ -159,7 +160,7 @@ func main() {
 		c := exec.Config{Unwind: pick(sp.Unwind, *unwind), MaxSteps: pick(sp.MaxSteps, *steps), MaxDepth: pick(sp.MaxDepth, *depth),
 			MaxAlloc: pick64(sp.MaxAlloc, *alloc), MaxPaths: sp.MaxPaths, Solver: *solver, TimeoutMs: *timeout, Workers: *workers,
 			AllocViolation: sp.AllocViolation, UnwindViolation: sp.UnwindViolation, PanicOK: sp.PanicOK, Preempt: sp.Preempt,
-			RaceFields: sp.RaceFields, NoOps: sp.NoOps, TimerAnyTime: sp.TimerAnyTime, Verbose: *verbose, DumpDir: *dump, Seed: *seed, SelfCheck: *selfcheck, RestartEvery: *restart, SkipInit: sp.SkipInit, GoAsCall: sp.GoAsCall, ConcretizeDiv: sp.ConcretizeDiv, StubError: sp.StubError, RealLogger: sp.RealLogger, Redirect: sp.Redirect}
+			RaceFields: sp.RaceFields, NoOps: sp.NoOps, TimerAnyTime: sp.TimerAnyTime, Verbose: *verbose, DumpDir: *dump, Seed: *seed, SelfCheck: *selfcheck, RestartEvery: *restart, SkipInit: sp.SkipInit, GoAsCall: sp.GoAsCall, ConcretizeDiv: sp.ConcretizeDiv, StubError: sp.StubError, RealLogger: sp.RealLogger, RealFuncs: sp.RealFuncs, Redirect: sp.Redirect}
 		if sp.BudgetS > 0 {
 			c.Deadline = time.Now().Add(time.Duration(sp.BudgetS) * time.Second)
 		}
